@@ -216,7 +216,7 @@ func bindFeatures(t, j map[string]interface{}) map[string]bool {
 	var walkJ func(j map[string]interface{})
 	walkJ = func(j map[string]interface{}) {
 		switch sstr(j["j"]) {
-		case "n", "s", "x":
+		case "n", "s", "x", "xs":
 			f[sstr(j["c"])] = true
 		case "a":
 			for _, e := range seqOf(j["e"]) {
